@@ -53,6 +53,19 @@ def build(tier, known):
                          bound=f'the answers of the specification crate are symbolic: {dom}',
                          claim='strict Ok <=> lenient Ok without warnings; first lenient warning = strict error; strict rejects exactly the documented violation (repeated single-occurrence sub-element / two different alternatives of an exclusive choice / sub-element unknown or not available in the file version)',
                          native=('data', 'n_c08_element'), timeout=600))
+    # ---- whole (mini) documents: the real tokenizer + parse_element + verify_end_of_input on their MIR ----
+    hs.append(Harness('n_parse_element_doc', 'data', 'parser.rs', '', functions=[], bound='', claim='', role='native'))
+    PFUNCS = ['lexer::ArxmlLexer::next (+ the five token readers)', 'parser::ArxmlParser::parse_element (recursive)', 'parser::ArxmlParser::verify_end_of_input',
+              'parser::ArxmlParser::find_element_in_spec_checked', 'check_element_conflict', 'check_multiplicity', 'parse_attribute_text', 'parse_character_data', 'ElementRaw::wrap']
+    SCHEMA = 'specification answers given by a mini schema that mirrors the real one: AUTOSAR > AR-PACKAGES (0..1) > AR-PACKAGE* > SHORT-NAME (1), CATEGORY (0..1, symbolic version mask), AR-PACKAGES (0..1); identifier-typed values; any single-bit file version; 11 tokens (5 start tags... text of one symbolic byte, a comment, </AUTOSAR>)'
+    for L in range(0, (4 if q else 5) + 1):
+        hs.append(E2Spec(f'e2_c08_doc_len{L}', 'ParseElementDocs', dict(length=L, aspect='c08'), functions=PFUNCS,
+                         bound=f'ALL {11 ** L} token sequences of length exactly {L} as the body of the root element; ' + SCHEMA,
+                         claim='strict Ok <=> lenient Ok without warnings; first lenient warning = strict error; strict Ok => the document is valid for the schema (known sub-elements in context and version, single-occurrence elements not repeated, SHORT-NAME present, character content only where allowed, proper nesting, nothing but white space / comments after the root)', native=('data', 'n_parse_element_doc'), parts=(16 if L >= 4 else (4 if L == 3 else 1)), timeout=1500 if q else 7200))
+    for base in ([0, 1, 2, 3, 4, 7, 9, 10] if q else range(0, 11)):
+        hs.append(E2Spec(f'e2_c08_doc_edits{base}', 'ParseElementDocs', dict(base=base, aspect='c08', sym_texts=(2 if base < 5 else 1)), functions=PFUNCS,
+                         bound=f'seed document no. {base} of mirsym/e2defs.py VALID_DOCS (valid documents and documents with one defect) and ALL its single-token edits (delete, duplicate, replace by any token, insert any token anywhere); ' + SCHEMA,
+                         claim='strict Ok <=> lenient Ok without warnings; first lenient warning = strict error; strict Ok => the document is valid for the schema (known sub-elements in context and version, single-occurrence elements not repeated, SHORT-NAME present, character content only where allowed, proper nesting, nothing but white space / comments after the root)', native=('data', 'n_parse_element_doc'), parts=(16 if base in (4, 5, 6, 7, 8) else 8), timeout=1500 if q else 7200))
     info = dict(
         assumptions=['E2 library models (mirsym/models.py) are trusted and validated against the native build',
                      'the pattern validator, f64 parsing and the enum item lookup are uninterpreted deterministic functions: the claim holds for every validator / table'],
